@@ -162,6 +162,7 @@ let p_cmd (kw : string) : cmd =
   | "snapf" -> let w = p_var () in let f = p_var () in CSnapF (w, f)
   | "snapinto" -> let f = p_var () in let w = p_var () in CSnapInto (f, w)
   | "complexes" -> let f = p_var () in let pre = p_var () in CComplexes (f, pre)
+  | "nextof" -> let w = p_var () in let f = p_var () in let n = p_nat () in CNextOf (w, f, n)
   | "vr" -> let w = p_var () in let v = p_var () in let c = p_pairs () in CVR (w, v, c)
   | "gen" ->
     let g = (match next () with "simplex" -> GSimplex | "void" -> GVoid | "skeleton" -> GSkeleton
